@@ -130,7 +130,7 @@ func main() {
 		p := strings.SplitN(kv, "=", 2)
 		cfg.ExtraOverlay[p[1]] = p[0]
 	}
-	out := &Output{Pkg: cfg.Pkg, Tags: cfg.Tags, Solver: "z3 (z3 -in, incremental)", TimeoutMs: cfg.TimeoutMs}
+	out := &Output{Pkg: cfg.Pkg, Tags: cfg.Tags, Solver: "z3 5.1.0 (z3-new -in, incremental); fallback for unknown: z3 4.8.12, cvc5 1.0 (one-shot)", TimeoutMs: cfg.TimeoutMs}
 	t0 := time.Now()
 	prog, pkg, err := load(cfg)
 	out.LoadS = time.Since(t0).Seconds()
